@@ -19,11 +19,17 @@
   pydrobert-kaldi).  They enter as abstract primitives (`Prims`) so that "dtype is applied as a final cast"
   and "wds_read_signal never raises" are statements for *every* behaviour of the codecs.
 
-  Strings are `List Char` (`Str`): the kernel evaluates `"…".toList` but not `String.endsWith`.
+  Strings are `List Char` (`Str`, literals `str% "…"`): the kernel does not evaluate `String.endsWith`.
 -/
 namespace PdsVerif.Model.ReadSignal
 
 abbrev Str := List Char
+
+/-- `str% "abc"` is the explicit literal `['a', 'b', 'c']` (expanded when the file is elaborated, so neither
+`simp` nor the kernel ever meets `String.toList`). -/
+macro "str% " s:str : term => do
+  let elems := s.getString.toList.toArray.map fun c => Lean.Syntax.mkCharLit c
+  `([$elems,*])
 
 /-- Python exception classes the glue itself raises, plus `decoder` = anything a third-party decoder raised
 on the bytes it was given (outside the model) and `outOfFuel` (not a Python exception: the HDF5 loop model
@@ -237,6 +243,24 @@ def ReaderInfo.plan (i : ReaderInfo) (key : Key) (dtype : Option Str) : Except E
       | some d => some d
       | none => dflt
     pure ⟨i.reader, sel, d, none, i.ops.filter (· != .cast)⟩
+
+/-- one test of the `if sf.subtype == …` chain of `_soundfile_read_signal` -/
+inductive SubtypeTest where
+  | eq (s : Str)            -- `sf.subtype == "<s>"`
+  | never                   -- `sf.subtype == {…}`: a `str` compared with a set – never true
+  | mem (l : List Str)      -- `sf.subtype in {…}`
+  | otherwise               -- `else:`
+deriving DecidableEq, Repr
+
+def SubtypeTest.holds (sub : Str) : SubtypeTest → Bool
+  | .eq s => sub == s
+  | .never => false
+  | .mem l => l.contains sub
+  | .otherwise => true
+
+/-- numpy type `_soundfile_read_signal` reads a file of the given libsndfile subtype with -/
+def sfDtype (chain : List (SubtypeTest × Str)) (sub : Str) : Option Str :=
+  (chain.find? (fun t => t.1.holds sub)).map (·.2)
 
 /-! ## `read_signal` -/
 
